@@ -12,6 +12,7 @@ CONSTANTS
   Lo = 100
   Hi = 400
   Step = 50
+  RbfDepth = 4
   TightCap = FALSE
 INVARIANTS NeverAbort
 CHECK_DEADLOCK FALSE
